@@ -1289,9 +1289,10 @@ func (f *Frugal) isValidType(typ *Type) bool {
 	} else if typ.IsContainer() {
 		switch typ.Name {
 		case "list", "set":
-			return f.isValidType(typ.ValueType)
+			return typ.ValueType != nil && f.isValidType(typ.ValueType)
 		case "map":
-			return f.isValidType(typ.KeyType) && f.isValidType(typ.ValueType)
+			return typ.KeyType != nil && typ.ValueType != nil &&
+				f.isValidType(typ.KeyType) && f.isValidType(typ.ValueType)
 		}
 	}
 
